@@ -913,6 +913,8 @@ def Call.src (cfg : Cfg) : Call → PaySrc
   | .onPing d => .lit d
   | .onClose code r => .lit (buildClosePayload code r)
   | .autoPing => .lit []
+  | .onData _ => .lit []
+  | .onData2 _ _ => .lit []
 
 def Call.frame (cfg : Cfg) (call : Call) : FrameSrc := ⟨call.op, call.src cfg⟩
 
